@@ -95,12 +95,12 @@ func iterationCanSkip(c ssa.Instruction) (bool, bool) {
 }
 
 func runC14(e *Engine, r *Report, tier string) {
-	r.Explanation = "C14, structural clauses. Decided: R1 key-family coverage — every staking/distribution key family of the SDK fork being built that has a key constructor taking the delegator address is both deleted (source key) and set (target key) by the staking/distribution migrator (exemption: distribution 0x03 withdraw-address preference), the maturation queues 0x41/0x42 are rewritten, and the queue rewrite is executed for every entry (no iteration of the entries loop can skip the queue lookup); R2 the bank migrator sends GetAllBalances(from) from `from` to `to`; R3 stateless validation requires the recovered signer of hash(from,to) to equal `to` and from != to, and the handler refuses addresses with a migration record before anything else; R4 every Validate runs before every Execute and the record is written after the last Execute on the success path; R5 the governance scan of open proposals is not bounded by the current block time and checks proposer, depositor and voter for both addresses. Not decided: later activity of the target, arithmetic inside SDK modules."
+	r.Explanation = "C14, structural clauses. Decided: R1 key-family coverage — every staking/distribution key family of the SDK fork being built that has a key constructor taking the delegator address is both deleted (source key) and set (target key) by the staking/distribution migrator (exemption: distribution 0x03 withdraw-address preference), the maturation queues 0x41/0x42 are rewritten, and the queue rewrite is executed for every entry (no iteration of the entries loop can skip the queue lookup); R2 the bank migrator sends GetAllBalances(from) from `from` to `to`; R3 stateless validation requires the recovered signer of hash(from,to) to equal `to` and from != to, and the handler refuses addresses with a migration record before anything else; R4 every Validate runs before every Execute and the record is written after the last Execute on the success path; R5 the governance scan of open proposals is not bounded by the current block time, its per-proposal callbacks return stop=false whenever they return no error (every open proposal is examined), and it checks proposer, depositor and voter for both addresses. Not decided: later activity of the target, arithmetic inside SDK modules."
 	r.Rule("R1", "staking/distribution key families with a delegator key are deleted+set; queues rewritten for every entry", 9, "key constructors with a delegator parameter in cosmos-sdk x/staking/types and x/distribution/types (fork in go.mod)")
 	r.Rule("R2", "bank: SendCoins(from, to, GetAllBalances(from))", 1, "")
 	r.Rule("R3", "signature by target over (from,to); from != to; migration-record lookups first", 4, "")
 	r.Rule("R4", "all Validate before all Execute; record after", 3, "")
-	r.Rule("R5", "open-proposal scan covers the whole queues; proposer/deposit/vote checked for source and target", 5, "2 queue scans + 3 participation kinds")
+	r.Rule("R5", "open-proposal scan covers the whole queues (unbounded range, callbacks never stop the walk without an error); proposer/deposit/vote checked for source and target", 7, "2 queue scans + 3 participation kinds")
 
 	// locate migrator implementers (interface MigrateI)
 	impls := e.TypesImplementing(ModPath+"/x/migrate/keeper", "MigrateI")
@@ -521,6 +521,38 @@ func runC14(e *Engine, r *Report, tier string) {
 					}
 				}
 			})
+		}
+		// the per-proposal callbacks never ask the walk to stop on an uninvolved proposal: a (stop, error) callback
+		// returns stop == false whenever its error is nil, so every open proposal of the queue is examined
+		ncb := 0
+		for _, f := range fns {
+			res := f.Signature.Results()
+			if f.Parent() == nil || res.Len() != 2 || !isErrorType(res.At(1).Type()) {
+				continue
+			}
+			if b, ok := res.At(0).Type().Underlying().(*types.Basic); !ok || b.Kind() != types.Bool {
+				continue
+			}
+			ncb++
+			var bad *ssa.Return
+			for _, ret := range SuccessReturns(f) {
+				if len(ret.Results) != 2 {
+					continue
+				}
+				if bv, ok := constBool(ret.Results[0]); ok && !bv {
+					continue
+				}
+				bad = ret
+			}
+			ck := e.FnKey(f) + " scan-continues"
+			if bad != nil {
+				r.Fail("R5", ck, e.InstrPos(bad), "the per-proposal callback can return stop=true (or a non-constant) with a nil error: the walk over the proposal queue ends at the first proposal that does not involve the accounts and later open proposals are never checked")
+			} else {
+				r.Ok("R5", ck, e.Pos(f.Pos()), "returns stop=false whenever it returns no error")
+			}
+		}
+		if ncb < 2 {
+			r.Fail("R5", "scan-callbacks", e.Pos(govValidate.Pos()), fmt.Sprintf("UNRESOLVED-ANCHOR: %d (stop, error) callbacks found in the gov migrator", ncb))
 		}
 		for _, k := range []string{"proposer", "HasDeposit", "HasVote"} {
 			r.Check(count[k] >= 2, "R5", "participation "+k, e.Pos(govValidate.Pos()), fmt.Sprintf("%d refusing checks (source and target)", count[k]), fmt.Sprintf("only %d refusing `%s` check(s): source and target must both be refused", count[k], k))
